@@ -255,7 +255,7 @@ func C03Scenario() *Scenario {
 		}
 		w.Stages = []Stage{
 			{Name: "chaos", Policy: pol, Steps: 150 + 100*t.Pick(3, "len")},
-			{Name: "drain", Quiet: true, MaxSteps: 3000, Do: func(w *World) { b.Left = 0 }, Check: func(w *World) *Violation {
+			{Name: "drain", Quiet: true, CheckOnBudget: true, MaxSteps: 3000, Do: func(w *World) { b.Left = 0 }, Check: func(w *World) *Violation {
 				return c03Oracle(w, s.Sig, compositeShape, s.ChildKinds(), matches, nil)
 			}},
 		}
